@@ -94,10 +94,11 @@ def classify(sym, srcs):
         for fm in re.finditer(r'\bstatic\s+[\w:<>\s\*]+?\b(\w+)\s*\([^)]*\)\s*\{', txt):
             end = _match_brace(txt, fm.end() - 1)
             body = txt[fm.end():end]
-            if _uses_are_reads(body, m.group(1), (0, 0)):
+            # std::map: operator[] inserts a default element for an absent key, so ANY subscript is a write
+            if _uses_are_reads(body, m.group(1), (0, 0)) or re.search(r'\b%s\s*\[' % re.escape(m.group(1)), body):
                 writers.add(fm.group(1))
         ok = writers <= {'register_allocator'}
-        return ok, 'include/tins/pdu_allocator.h', ('user registry: written only by register_allocator (registration API), only read (find/count) on the parse path' if ok
+        return ok, 'include/tins/pdu_allocator.h', ('user registry (std::map): subscripted / mutated only in register_allocator (registration API); the parse path uses find()/count() only' if ok
                                                     else 'registry written by ' + ', '.join(sorted(writers)))
     fl = re.match(r'(.*)\((.*)\)(?: const)?::(\w+)$', sym)
     if fl:      # function-local static
